@@ -154,6 +154,7 @@ def kinds():
     hs = [["h", "a"], ["h", "0"], ["h", "x y"], ["h", "a", ["asbool"]], ["h", "h-1"], ["h", "a_b.nocontrib".split(".")[0], ["nocontrib"]], ["h", "a. b"], ["h", "a.b"]]
     vs = [["v", "x"], ["v", "x", ["k"]], ["v", "x", ["asbool"]], ["v", "x", ["k", "onmatch"]], ["v", "x-y"]]
     ts = [["t", "abc", "str"], ["t", "a b,c", "str"], ["t", "", "str"], ["t", "5", "int"], ["t", "-3", "int"], ["t", "+2", "int"], ["t", "1.5", "float"], ["t", "-0.25", "float"], ["t", ".5", "float"],
+          ["t", "x]y", "str"], ["t", "x[y", "str"], ["t", "p ~ q", "str"], ["t", "a$b #c @d", "str"], ["t", "s->t==u", "str"], ["t", "(z),/re/", "str"],  # grammar punctuation inside a string
           ["t", "0", "int"], ["t", "9007199254740993", "int"], ["t", "-12345678901234567891", "int"], ["t", "100.0", "float"]]  # integers a double cannot hold
     ts += [["t", r, "regex"] for r in REGEXES]
     out = []
